@@ -129,6 +129,18 @@ def const(v):
     return lambda n: ast.Constant(value=v)
 
 
+def _drop_elif_read(tree):
+    """ChangeContents.do: `if old is None: ... elif <r>.newlines is None and <r>.exists(): read` -> the elif branch removed"""
+    f = find_func(tree, "ChangeContents.do")
+    if f is None:
+        return False
+    for st in ast.walk(f):
+        if isinstance(st, ast.If) and st.orelse and len(st.orelse) == 1 and isinstance(st.orelse[0], ast.If) and "newlines is None" in ast.unparse(st.orelse[0].test):
+            st.orelse = []
+            return True
+    return False
+
+
 def stmt_is(text: str):
     return lambda s: ast.unparse(s).strip().startswith(text)
 
@@ -277,8 +289,8 @@ SPECS: List[Spec] = [
     ("C14", "tab-to-four-spaces", "rope/base/simplify.py",
      replace_expr_where("real_code", lambda n: isinstance(n, ast.Constant) and n.value == " " and False, const("    ")), ["R14.1"]),
     ("C14", "any-string-prefix-too-short", "rope/base/codeanalyze.py",
-     replace_expr_where("get_any_string_pattern", lambda n: isinstance(n, ast.Constant) and isinstance(n.value, str) and "{,4}" in n.value,
-                        lambda n: ast.Constant(value=n.value.replace("{,4}", "?"))), ["R14.2"]),
+     replace_expr_where("get_any_string_pattern", lambda n: isinstance(n, ast.Constant) and isinstance(n.value, str) and "{1,4}" in n.value,
+                        lambda n: ast.Constant(value=n.value.replace("{1,4}", ""))), ["R14.2"]),
     ("C14", "comment-stops-at-quote", "rope/base/codeanalyze.py",
      replace_expr_where("get_comment_pattern", lambda n: isinstance(n, ast.Constant) and isinstance(n.value, str) and n.value.startswith("#"),
                         lambda n: ast.Constant(value="#[^\\n\"]*")), ["R14.3"]),
@@ -303,8 +315,11 @@ SPECS: List[Spec] = [
     ("C16", "cr-before-crlf", "rope/base/ast.py",
      replace_expr_where("parse", lambda n: isinstance(n, ast.Call) and ast.unparse(n).endswith("replace(b'\\r', b'\\n')"),
                         lambda n: ast.parse("source.replace(b'\\r', b'\\n').replace(b'\\r\\n', b'\\n')", mode="eval").body), ["R16.4"]),
-    ("C16", "write_file-does-not-detect", "rope/base/change.py",
-     remove_stmt_where("_ResourceOperations.write_file", lambda s: isinstance(s, ast.If) and "resource.newlines is None" in ast.unparse(s.test)), ["R16.3"]),
+    # (since fix 472388c both ChangeContents.do and write_file detect the convention of a file that was never read: removing ONE of the two
+    # layers is harmless -- the seeds C12-f and C16-g, which did that, were retired -- so the mutant removes both)
+    ("C16", "neither-layer-detects-the-convention", "rope/base/change.py",
+     seq(remove_stmt_where("_ResourceOperations.write_file", lambda s: isinstance(s, ast.If) and "resource.newlines is None" in ast.unparse(s.test)),
+         _drop_elif_read), ["R16.3"]),
     # C17
     ("C17", "tuple-refusal-after-emission", "rope/refactor/encapsulate_field.py",
      remove_stmt_where("_FindChangesForModule.get_changed_module", lambda s: isinstance(s, ast.If) and "tuple_assignment" in ast.unparse(s.test)), ["R17.2"]),
@@ -838,3 +853,54 @@ def _starred_add(tree):
 
 
 SPECS += [("C03", "all-names-handed-to-add-at-once", "rope/refactor/extract.py", _starred_add, ["R03.21"])]
+
+# nonlocal through a class body (fix a1283d5)
+SPECS += [("C15", "nonlocal-search-starts-in-the-class-body", "rope/base/pyobjectsdef.py",
+           remove_stmt_where("_ScopeVisitor._Nonlocal", lambda s_: isinstance(s_, ast.While) and "Class" in ast.unparse(s_.test)), ["R15.19"])]
+
+# one-based line numbers (fix 3133b38)
+SPECS += [("C20", "line-index-handed-on-as-a-line-number", "rope/contrib/fixsyntax.py",
+           replace_expr_where("FixSyntax.pyname_at", _is("self.code.count('\\n', 0, offset) + 1"), _expr("self.code.count('\\n', 0, offset)")), ["R20.21"])]
+
+# a module is renamed to an identifier only (fix f5ec43d)
+SPECS += [("C09", "module-name-not-checked", "rope/refactor/rename.py",
+           remove_stmt_where("Rename._rename_module", stmt_is("if not new_name.isidentifier()")), ["R09.16"])]
+
+# a comprehension in a class body (fix 8be2653)
+SPECS += [
+    ("C15", "comprehension-copies-all-names-of-its-parent", "rope/base/pyscopes.py",
+     replace_expr_where("ComprehensionScope._visit_comprehension", _is("self.parent.get_propagated_names()"), _expr("self.parent.get_names()")), ["R15.16"]),
+    ("C02", "comprehension-copies-all-names-of-its-parent", "rope/base/pyscopes.py",
+     replace_expr_where("ComprehensionScope._visit_comprehension", _is("self.parent.get_propagated_names()"), _expr("self.parent.get_names()")), ["R02.26"]),
+]
+
+# only certain later writes shield (fix fe41c1d)
+SPECS += [("C03", "every-later-write-counts-as-certain", "rope/refactor/extract.py",
+           replace_expr_where("_FunctionInformationCollector._written_variable", _is("self.end < lineno and (not self.post_conditional)"), _expr("self.end < lineno")), ["R03.22"])]
+
+# a write that creates reports `created` (fix 004ba29)
+SPECS += [
+    ("C13", "write-reports-changed-only", "rope/base/change.py",
+     remove_stmt_where("_ResourceOperations.write_file", lambda s_: isinstance(s_, ast.If) and "resource_created" in ast.unparse(s_)), ["R13.20"]),
+    ("C13", "existence-asked-after-the-write", "rope/base/change.py",
+     seq(remove_stmt_where("_ResourceOperations.write_file", stmt_is("created = not resource.exists()")),
+         replace_expr_where("_ResourceOperations.write_file", lambda n: isinstance(n, ast.Name) and n.id == "created", _expr("not resource.exists()"))), ["R13.20"]),
+]
+
+# a string prefix starts a word (fix d7f5143)
+SPECS += [
+    ("C14", "any-prefix-in-the-middle-of-a-word", "rope/base/codeanalyze.py",
+     replace_expr_where("get_any_string_pattern", _const_is(r"(?:\b[bBfFrRuU]{1,4})?"), const(r"[bBfFrRuU]{,4}")), ["R14.21"]),
+    ("C14", "f-prefix-in-the-middle-of-a-word", "rope/base/codeanalyze.py",
+     replace_expr_where("get_formatted_string_pattern", _const_is(r"\b([rR]?[fF]|[fF][rR]?)"), const(r"(\b[rR]?[fF]|[fF][rR]?)")), ["R14.21"]),
+    ("C14", "look-behind-for-a-bare-f", "rope/base/codeanalyze.py",
+     replace_expr_where("get_string_pattern", _const_is(r"(?<!\b[fF])(?<!\b[rR][fF])(\b(?:[uUbB]?[rR]?|[rR][bB]))?"), const(r"(?<![fF])(\b(?:[uUbB]?[rR]?|[rR][bB]))?")), ["R14.21"]),
+    ("C02", "f-prefix-in-the-middle-of-a-word", "rope/base/codeanalyze.py",
+     replace_expr_where("get_formatted_string_pattern", _const_is(r"\b([rR]?[fF]|[fF][rR]?)"), const(r"(\b[rR]?[fF]|[fF][rR]?)")), ["R02.27"]),
+]
+
+# a chained assignment is refused (fix 9a856c9)
+SPECS += [
+    ("C17", "chained-assignment-not-refused", "rope/refactor/encapsulate_field.py",
+     remove_stmt_where("_FindChangesForModule.get_changed_module", stmt_is("if self._is_in_a_chained_assignment(")), ["R17.16"]),
+]
